@@ -67,6 +67,9 @@ pub struct Lift {
     pub s: usize,
     pub pl: usize,
     pub pr: usize,
+    /// position of the symbol inside its block of `s` bytes (block = pad^q a pad^(s-1-q)); with q = s-1 lifted
+    /// needles end with a real symbol, so that rare-byte offsets can lie in the needle's last bytes
+    pub q: usize,
     pub map: [u8; 3],
     pub pad: u8,
 }
@@ -88,23 +91,27 @@ pub fn lift_for(j: usize, k: usize) -> Lift {
     // the first lifts keep the block size 1 and only pad (the pad byte lies outside the needle's byte
     // set): the same abstract behaviour then runs through the >= 16 and >= 64 byte routes
     match k {
-        0 => return Lift { s: 1, pl: 0, pr: 0, map, pad },
-        1 => return Lift { s: 1, pl: 16 + j % 3, pr: 0, map, pad },
-        2 => return Lift { s: 1, pl: j % 2, pr: 64 + j % 5, map, pad },
-        3 => return Lift { s: 1, pl: 64, pr: 16, map, pad },
+        0 => return Lift { s: 1, pl: 0, pr: 0, q: 0, map, pad },
+        1 => return Lift { s: 1, pl: 16 + j % 3, pr: 0, q: 0, map, pad },
+        2 => return Lift { s: 1, pl: j % 2, pr: 64 + j % 5, q: 0, map, pad },
+        3 => return Lift { s: 1, pl: 64, pr: 16, q: 0, map, pad },
         _ => {}
     }
     let s = SCALES[(j / 3 + k) % SCALES.len()];
     let (pl, pr) = PADS[(j / 5 + k) % PADS.len()];
-    Lift { s, pl, pr, map, pad }
+    let q = [0, s - 1, s / 2][(j / 2 + k) % 3];
+    Lift { s, pl, pr, q, map, pad }
 }
 
 impl Lift {
     pub fn seq(&self, x: &[u8]) -> Vec<u8> {
         let mut v = Vec::with_capacity(x.len() * self.s);
         for &c in x {
+            for _ in 0..self.q {
+                v.push(self.pad);
+            }
             v.push(self.map[c as usize]);
-            for _ in 1..self.s {
+            for _ in self.q + 1..self.s {
                 v.push(self.pad);
             }
         }
@@ -124,7 +131,7 @@ impl Lift {
         }
     }
     pub fn json(&self) -> Value {
-        json!({"s": self.s, "pl": self.pl, "pr": self.pr, "map": self.map, "pad": self.pad})
+        json!({"s": self.s, "pl": self.pl, "pr": self.pr, "q": self.q, "map": self.map, "pad": self.pad})
     }
 }
 
@@ -273,6 +280,26 @@ pub fn replay_one(idx: usize, v: &Value, rep: &Report, cnt: &mut Counts, o: &Opt
             let (r, a) = counted(|| FinderBuilder::new().build_forward(&n).find(&h));
             c.check(cnt, "FinderBuilder::build_forward.find", r.map(opt_to_i), wfind);
             c.alloc("FinderBuilder::build_forward.find", a);
+            // TruncLemma (MC_SubOracle): boundary prefixes of the haystack -- the occurrence ends one byte past / exactly
+            // at / one byte before the end, and the haystack loses its last byte
+            if !n.is_empty() {
+                let mut ls: Vec<usize> = Vec::new();
+                if wfind >= 0 {
+                    let e = wfind as usize + n.len();
+                    ls.extend([e - 1, e, e + 1]);
+                }
+                ls.push(h.len().saturating_sub(1));
+                ls.retain(|&l| l < h.len());
+                ls.sort();
+                ls.dedup();
+                for l in ls {
+                    let want = if wfind >= 0 && wfind as usize + n.len() <= l { wfind } else { -1 };
+                    let r = guard(|| memmem::find(&h[..l], &n));
+                    c.check(cnt, &format!("memmem::find[prefix of {l} bytes]"), r.map(opt_to_i), want);
+                    let r = guard(|| memmem::Finder::new(&n).find(&h[..l]));
+                    c.check(cnt, &format!("Finder::find[prefix of {l} bytes]"), r.map(opt_to_i), want);
+                }
+            }
             // which strategy of the meta searcher served this search (coverage measurement only, from the step counters)
             {
                 let f = memmem::Finder::new(&n);
@@ -350,6 +377,24 @@ pub fn replay_one(idx: usize, v: &Value, rep: &Report, cnt: &mut Counts, o: &Opt
                 c.alloc("FinderRev::rfind", a);
                 if f.needle() != &n[..] {
                     rep.finding(Class::Result, "FinderRev::needle() differs from the construction needle", c.ctx("FinderRev::needle"));
+                }
+            }
+            // TruncLemma, mirrored: boundary suffixes of the haystack
+            if !n.is_empty() {
+                let mut cuts: Vec<usize> = vec![1];
+                if wrfind >= 0 {
+                    let b = wrfind as usize;
+                    cuts.extend([b.saturating_sub(1), b, b + 1]);
+                }
+                cuts.retain(|&c_| c_ > 0 && c_ <= h.len());
+                cuts.sort();
+                cuts.dedup();
+                for cut in cuts {
+                    let want = if wrfind >= 0 && wrfind as usize >= cut { wrfind - cut as i64 } else { -1 };
+                    let r = guard(|| memmem::rfind(&h[cut..], &n));
+                    c.check(cnt, &format!("memmem::rfind[suffix from {cut}]"), r.map(opt_to_i), want);
+                    let r = guard(|| memmem::FinderRev::new(&n).rfind(&h[cut..]));
+                    c.check(cnt, &format!("FinderRev::rfind[suffix from {cut}]"), r.map(opt_to_i), want);
                 }
             }
             let (r, _) = counted(|| FinderBuilder::new().build_reverse(&n).rfind(&h));
